@@ -2,12 +2,12 @@ SPECIFICATION MCSpec
 CONSTANTS
   MaxCorrupt = 0
   BlockLens = {1, 2}
-  TableIds = {1, 2, 3, 4}
+  TableIds = {1, 2, 3, 4, 5}
   Reads = TRUE
   MaxLevel = 4
 VIEW View
 INVARIANT ConstraintInv
-PROPERTIES RefusedUnchanged SanitiseRestores SetGetRoundTrip BitOpsExact InitAcceptsIffWellFormed
+PROPERTIES RefusedUnchanged SanitiseRestores SetGetRoundTrip BitOpsExact InitAcceptsIffWellFormed ReadsFlat IterationExact
 CONSTRAINT Bounded
 CONSTRAINT EmitInit
 ACTION_CONSTRAINT EmitAll
